@@ -64,6 +64,9 @@
 (*        Interop namespace"), ModelErrorWhenNoClass.                      *)
 (*  Delete.* (delete_namespace)  NotFoundWhenAbsent ("CIMError:            *)
 (*        CIM_ERR_NOT_FOUND, Specified namespace does not exist"),         *)
+(*        NotFoundOnlyWhenAbsent (the same sentence read backwards: a      *)
+(*        namespace that exists - under any spelling - is not reported as  *)
+(*        not existing),                                                   *)
 (*        NotEmpty ("CIM_ERR_NAMESPACE_NOT_EMPTY"), CannotDeleteInterop,   *)
 (*        SucceedsWhenEmptyAndPresent, ReturnsStandardName,                *)
 (*        NamespaceGoneOnServer, ObjectReflectsRemoval.                    *)
@@ -175,6 +178,8 @@ DeleteFails(s, e) ==
   ELSE IF e.n.id \notin Ids(s.ns)
   THEN F("Delete.NotFoundWhenAbsent",
          e.res.k = "CIMError" /\ e.res.code = E_NOT_FOUND)
+  ELSE IF e.res.k = "CIMError" /\ e.res.code = E_NOT_FOUND
+  THEN {"Delete.NotFoundOnlyWhenAbsent"}
   ELSE IF e.n.id \in CandSet
   THEN F("Delete.CannotDeleteInterop", e.res.k = "CIMError")
   ELSE IF e.n.id \in s.full
@@ -208,7 +213,9 @@ InStepFails(s, e) ==
 (* Result tokens of brand: the five normalised brands "OpenPegasus" "SFCB" *)
 (* "JWBEM" "EMC" "FUJITSU", "asis" (= ElementName), "unknown".             *)
 (* Result tokens of version: "v" ("2.15.0"), "vrest" ("2.15.0 Released"),  *)
-(* "prop" (value of the Version property), "none" (None).                  *)
+(* "reltail" ("d": literally the string after the LAST "release", which    *)
+(* sits inside "Released"), "prop" (value of the Version property),        *)
+(* "none" (None).                                                          *)
 (*                                                                         *)
 (*  Brand.KnownServerNormalized  "For known WBEM servers, the brand is     *)
 (*        then normalized in order to make it identifiable".               *)
@@ -230,7 +237,7 @@ BrandOf(en) ==
     [] OTHER -> "unknown"
 VersionAdm(om) ==
   (CASE om.desc = "ver" -> {"v"}
-     [] om.desc = "verrel" -> {"v", "vrest"}
+     [] om.desc = "verrel" -> {"v", "vrest", "reltail"}
      [] om.desc = "rel" -> {"v", "none"}
      [] om.desc = "num" -> {"v", "none"}
      [] OTHER -> {"none"})
